@@ -396,7 +396,11 @@ func init() {
 	})
 	reg("regexp.MustCompile", "compiles the (constant) pattern", func(x *Exec, n *ast.CallExpr, recv ast.Expr, st *State) (Val, *State) {
 		_, st1 := x.eval(n.Args[0], st)
-		return x.c.freshObj("re", "regexp.Regexp"), st1
+		o := x.c.freshObj("re", "regexp.Regexp").(Obj)
+		if cv, ok := x.constOf(n.Args[0]); ok && constant.StringVal(cv) == `\S+` {
+			o.F["nonspace"] = scBool(tTrue) // the pattern \S+: FindAllString returns the canonical token functions wsN / wsF
+		}
+		return o, st1
 	})
 	reg("(*regexp.Regexp).FindAllString", "all successive matches of the pattern in s (a function of the pattern and s); for the pattern \\S+ these are the maximal runs of non-whitespace", func(x *Exec, n *ast.CallExpr, recv ast.Expr, st *State) (Val, *State) {
 		rv, st1 := x.eval(recv, st)
@@ -406,6 +410,14 @@ func init() {
 		c.usesStr = true
 		c.declareFun("re!n", []string{SInt, SStr}, SInt)
 		c.declareFun("re!m", []string{SInt, SStr}, arrSort(SInt, SStr))
+		if rv.(Obj).F["nonspace"] != nil {
+			for _, f := range []string{"wsN", "wsF", "wsA"} {
+				c.used[f] = true
+			}
+			s := sv.(Sc).T
+			cnt := app("wsN", s)
+			return Sl{Sc{app("wsA", s), arrSort(SInt, SStr)}, "0", cnt, tEq(cnt, "0"), types.Typ[types.String]}, st3
+		}
 		id := rv.(Obj).F["id"].(Sc).T
 		s := sv.(Sc).T
 		cnt := app("re!n", id, s)
